@@ -107,6 +107,21 @@ fn enc_data(t: &TypedFacts) -> Sx {
     Sx::l(kv.iter().map(|(k, v)| Sx::l(vec![Sx::i(*k), Sx::i(*v)])).collect())
 }
 
+/// the same rule set as GRL text (inert actions only): conditions over Tt.fi with the six comparison operators, &&, ||, !( )
+fn grl_cond(c: &Sx, t: i128) -> String {
+    let ops = ["==", "!=", "<", "<=", ">", ">="];
+    match c.at(0).as_u() {
+        0 => format!("{}.f{} {} {}", tname(t), c.at(1).as_i(), ops[c.at(2).as_us()], c.at(3).as_i()),
+        1 => format!("({} && {})", grl_cond(c.at(1), t), grl_cond(c.at(2), t)),
+        2 => format!("({} || {})", grl_cond(c.at(1), t), grl_cond(c.at(2), t)),
+        _ => format!("!({})", grl_cond(c.at(1), t)),
+    }
+}
+fn grl_of(rules: &Sx) -> String {
+    rules.as_l().iter().map(|r| format!("rule \"r{}\" salience {} {}{{ when {} then Log(\"fired\"); }}\n",
+        r.at(0).as_i(), r.at(2).as_i(), if r.at(3).as_b() { "no-loop " } else { "" }, grl_cond(r.at(4), r.at(1).as_i()))).collect()
+}
+
 pub fn run(case: &Sx) -> (Sx, String) { crate::run_in_child("C06", case, 60) }
 
 pub fn run_direct(case: &Sx) -> (Sx, String) {
@@ -132,14 +147,36 @@ pub fn run_direct(case: &Sx) -> (Sx, String) {
                 }
             }) }, vec![tname(ty)]);
     }
+    // GRL-loader glue (src/rete/grl_loader.rs): for inert rule sets the same rules are also written as GRL text, loaded through
+    // GrlReteLoader::load_from_string into a second engine that receives the same operations; every fire_all must fire the same rules
+    let mut e2 = if sorted && case.at(1).as_l().iter().all(|r| r.at(5).at(0).as_u() == 0) {
+        let mut e2 = IncrementalEngine::new();
+        match rust_rule_engine::rete::grl_loader::GrlReteLoader::load_from_string(&grl_of(case.at(1)), &mut e2) {
+            Ok(n) => { assert_eq!(n, case.at(1).as_l().len(), "the GRL loader loaded {} of {} rules", n, case.at(1).as_l().len()); Some(e2) }
+            Err(err) => panic!("the GRL loader rejected the rule set: {}", err),
+        }
+    } else { None };
     let mut obs = vec![]; let mut issued = 0u64; let (mut nfir, mut nfire_ops) = (0usize, 0);
     for o in case.at(2).as_l() {
+        if let Some(e2) = e2.as_mut() {
+            match o.at(0).as_u() {
+                0 => { let _ = e2.insert(tname(o.at(1).as_i()), mk_data(o.at(2))); }
+                1 => { let _ = e2.update(FactHandle::new(o.at(1).as_u()), mk_data(o.at(2))); }
+                2 => { let _ = e2.retract(FactHandle::new(o.at(1).as_u())); }
+                3 => {}
+                _ => { e2.reset(); }
+            }
+        }
         let res = match o.at(0).as_u() {
             0 => { issued += 1; Sx::l(vec![Sx::n(e.insert(tname(o.at(1).as_i()), mk_data(o.at(2))).id())]) }
             1 => Sx::l(vec![Sx::b(e.update(FactHandle::new(o.at(1).as_u()), mk_data(o.at(2))).is_ok())]),
             2 => Sx::l(vec![Sx::b(e.retract(FactHandle::new(o.at(1).as_u())).is_ok())]),
             3 => { nfire_ops += 1; log.lock().unwrap().clear(); let fired = e.fire_all(); let l = log.lock().unwrap().clone(); nfir += l.len();
                    assert_eq!(fired.len(), l.len(), "fire_all returned {} names but {} actions ran", fired.len(), l.len());
+                   if let Some(e2) = e2.as_mut() {
+                       let mut a: Vec<String> = fired.clone(); a.sort(); let mut b: Vec<String> = e2.fire_all(); b.sort();
+                       assert_eq!(a, b, "rules loaded from GRL text fire differently from the same rules built through the API");
+                   }
                    if sorted { let mut names: Vec<i128> = l.iter().map(|f| f.at(0).as_i()).collect(); names.sort(); Sx::l(names.iter().map(|n| Sx::A(*n)).collect()) } else { Sx::l(l) } }
             _ => { e.reset(); Sx::l(vec![]) }
         };
